@@ -13,7 +13,7 @@ Not asserted: order of extras; behaviour on a wholly pruned root; invalid encodi
 import hashlib
 from collections import Counter
 from hypothesis import strategies as st
-from harness.core import Sub, Fail, call, exc_sig
+from harness.core import Sub, Fail, call, exc_sig, describe, look
 from harness.gen import dag
 from harness.ref import refdict, refcell as rc
 
@@ -292,6 +292,16 @@ def check_parsers(case):
     if not cell.type_ != -1 and len(cell.bits) + 4 <= 1023 and len(cell.refs) + 1 <= 4:
         readers['load_hashmap@inline-behind-prefix'] = _inline_behind_prefix
     readers['parse_hashmap-second-time'] = readers['parse_hashmap']          # the same cell object parsed again
+
+    def _shown(d):
+        # the caller logs what the parser returned (value slices) before reading it: formatting is not an operation on the result
+        if len(d) % 2:
+            describe(d, *list(d.values())[:4])
+        else:
+            look(d)
+        return d
+    readers['parse_hashmap/result-printed-before-read'] = lambda: {int(k, 2): des(v) for k, v in _shown(parse_hashmap(cell.begin_parse(), n)).items()}
+    readers['from_cell/result-printed-before-read'] = lambda: {k: des(v) for k, v in _shown(HashMap.from_cell(cell, n).map).items()}
     for name, rd in readers.items():
         ok, got = call(rd)
         if not ok:
@@ -387,6 +397,197 @@ def check_aug(case):
     return None
 
 
+# -- callbacks that call the library again: dictionaries whose values / extras hold other dictionaries ------------------------
+
+def _freeze(res, aug):
+    if aug:
+        d, ex = res
+        return (tuple(sorted(d.items())), tuple(sorted(ex)))
+    return tuple(sorted(res.items()))
+
+
+def check_nested(case):
+    """(d)/(c) with deserializer callbacks that themselves parse a dictionary (the shape of ShardAccountBlocks: HashmapAugE 256
+    AccountBlock .., AccountBlock holding `transactions:(HashmapAug 64 ..)`; of a dictionary of dictionaries; of an
+    ExtraCurrencyCollection inside the extra of an augmented dictionary). Outer and inner trees are built by the reference with free
+    label kinds; the inner one hangs behind a 'present' bit + reference in the leaf value (x), in the augmentation value (y), or both.
+    History (plain data in the case): an earlier walk that was aborted by a raising callback at the k-th call."""
+    from pytoniq_core.boc.hashmap.hashmap import HashMap
+    from pytoniq_core.boc.hashmap.parse import parse_hashmap_aug, parse_hashmap
+    from pytoniq_core.boc.builder import Builder
+    n, n2 = case['n'], case['n2']
+    o_aug, i_aug = case['outer'] == 'aug', case['innerk'] == 'aug'
+    where = case['where'] if o_aug else 'x'
+    ep = case['ep']
+    chooser = _kind_chooser(case)
+    # inner dictionaries (reference trees, expected parse results, library cells)
+    inner = []
+    for prs in case['inner']:
+        mp = {format(k % (1 << n2), '0%db' % n2): (format(v & 0xFFFF, '016b'), []) for k, v in prs}
+        info = {}
+        try:
+            t = refdict.build(mp, n2, kind_of=chooser, extra_of=_extra_of if i_aug else None, info=info)
+        except rc.RefCellError:
+            return None
+        d = {int(k, 2): int(vb, 2) for k, (vb, _) in mp.items()}
+        inner.append((t, _freeze((d, [int(eb, 2) for _, eb in info['extras']]) if i_aug else d, i_aug), mp))
+    pick = lambda v: inner[v % len(inner)]
+    mapping = {}
+    for k, v in case['pairs']:
+        v &= 0xFFFF
+        mapping[format(k % (1 << n), '0%db' % n)] = (format(v, '016b') + '1', [pick(v)[0]]) if 'x' in where else (format(v, '016b'), [])
+
+    def extra_of(keys, is_leaf, path):
+        bits, _ = _extra_of(keys, is_leaf, path)
+        return (bits + '1', [pick(int(bits, 2))[0]]) if 'y' in where else (bits, [])
+    info = {}
+    try:
+        ref = refdict.build(mapping, n, kind_of=chooser, extra_of=extra_of if o_aug else None, info=info)
+    except rc.RefCellError:
+        return None
+    cell = dag.lib_from_rcell(ref)
+    u16 = lambda s: s.load_uint(16)
+
+    def rd_inner(s):
+        # the inner dictionary through one of the library's entry points (the 'present' bit is 1 in every generated tree)
+        if i_aug:
+            if ep == 0:
+                s.load_bit()
+                return _freeze(parse_hashmap_aug(s.load_ref().begin_parse(), n2, u16, u16), True)
+            if ep == 1:
+                s.load_bit()
+                return _freeze(s.load_ref().begin_parse().load_hashmap_aug(n2, u16, u16), True)
+            return _freeze(s.load_hashmap_aug_e(n2, u16, u16), True)
+        if ep == 0:
+            s.load_bit()
+            return _freeze({int(k, 2): u16(v) for k, v in parse_hashmap(s.load_ref().begin_parse(), n2).items()}, False)
+        if ep == 1:
+            s.load_bit()
+            return _freeze(s.load_ref().begin_parse().load_hashmap(n2, None, u16), False)
+        return _freeze(s.load_dict(n2, None, u16), False)
+
+    with_inner = lambda s: (s.load_uint(16), rd_inner(s))
+    xd = with_inner if 'x' in where else u16
+    yd = with_inner if 'y' in where else u16
+    exp = {int(k, 2): ((int(vb[:16], 2), pick(int(vb[:16], 2))[1]) if 'x' in where else int(vb, 2)) for k, (vb, _) in mapping.items()}
+    exp_extras = Counter(((int(eb[:16], 2), pick(int(eb[:16], 2))[1]) if 'y' in where else int(eb, 2)) for _, eb in info.get('extras', []))
+    tag = f'{case["outer"]}-holding-{case["innerk"]}/in-{where}'
+
+    # history: a walk over the same cell that a raising callback aborted at its k-th call
+    ab = case.get('abort')
+    if ab:
+        cnt = [0]
+
+        def boom(s):
+            cnt[0] += 1
+            if cnt[0] >= ab:
+                raise KeyError('callback gives up')
+            return with_inner(s) if ('y' in where or not o_aug) else u16(s)
+        if o_aug:
+            call(parse_hashmap_aug, cell.begin_parse(), n, xd, boom)
+            call(parse_hashmap_aug, cell.begin_parse(), n, boom if 'x' in where else xd, yd)
+        else:
+            call(cell.begin_parse().load_hashmap, n, None, boom)
+
+    if o_aug:
+        readers = {
+            'parse_hashmap_aug': lambda: parse_hashmap_aug(cell.begin_parse(), n, xd, yd),
+            'load_hashmap_aug': lambda: cell.begin_parse().load_hashmap_aug(n, xd, yd),
+            'load_hashmap_aug_e': lambda: Builder().store_bit(1).store_ref(cell).end_cell().begin_parse().load_hashmap_aug_e(n, xd, yd),
+        }
+    else:
+        # a key_deserializer that looks its key up in another dictionary it parses on the spot
+        t0, f0, _ = inner[0]
+        c0 = dag.lib_from_rcell(t0)
+        s0 = lambda: Builder().store_bit(1).store_ref(c0).end_cell().begin_parse()
+        kd = lambda bits: (int(bits, 2), rd_inner(s0()))
+        unkd = lambda d: {k[0]: v for k, v in d.items()} if all(isinstance(k, tuple) and len(k) == 2 and k[1] == f0 for k in d) else d
+        readers = {
+            'HashMap.parse': lambda: HashMap.parse(cell.begin_parse(), n, None, xd),
+            'load_hashmap': lambda: cell.begin_parse().load_hashmap(n, None, xd),
+            'load_dict': lambda: Builder().store_dict(cell).end_cell().begin_parse().load_dict(n, None, xd),
+            'preload_dict': lambda: Builder().store_dict(cell).end_cell().begin_parse().preload_dict(n, None, xd),
+            'load_hashmap+key_deserializer': lambda: unkd(cell.begin_parse().load_hashmap(n, kd, xd)),
+            'from_cell': lambda: {k: xd(v) for k, v in HashMap.from_cell(cell, n).map.items()},
+        }
+    for name, rd in readers.items():
+        ok, got = call(rd)
+        if not ok:
+            return Fail(f'nested-parser-raises/{tag}/{type(got).__name__}', f'{name}: {exc_sig(got)}: {got!r} n={n} n2={n2}')
+        if o_aug:
+            if not (isinstance(got, tuple) and len(got) == 2):
+                return Fail(f'aug-parser-shape/{tag}', f'{name}: {got!r}'[:300])
+            d, extras = got
+        else:
+            d, extras = got, None
+        if d != exp:
+            bad = [k for k in exp if not isinstance(d, dict) or d.get(k) != exp[k]][:2]
+            return Fail(f'nested-leaves-differ/{tag}', f'{name}: n={n} n2={n2} inner entry point {ep}: keys {bad or sorted(d)[:3]}: expected '
+                        f'{[exp[k] for k in bad]} got {[d.get(k) for k in bad] if isinstance(d, dict) else d!r}'[:600])
+        if extras is not None and Counter(extras) != exp_extras:
+            return Fail(f'nested-extras-differ/{tag}', f'{name}: n={n} n2={n2}: expected {sorted(exp_extras.items())[:3]} got '
+                        f'{sorted(Counter(extras).items())[:3]}'[:600])
+    # (b) with a value writer that serialises another map: the outer cell is the canonical tree over the canonical inner trees
+    if not o_aug and not i_aug and where == 'x':
+        hms = {}
+        for i, (_, _, mp) in enumerate(inner):
+            h = HashMap(n2).with_uint_values(16)
+            for k, (vb, _) in mp.items():
+                h.set(int(k, 2), int(vb, 2))
+            hms[i] = h
+        outer = HashMap(n, value_serializer=lambda src, dest: dest.store_uint(src[0], 16).store_dict(src[1].serialize()))
+        cmap = {}
+        try:
+            canon_inner = [refdict.build(mp, n2) for _, _, mp in inner]
+            for k, (vb, _) in mapping.items():
+                v = int(vb[:16], 2)
+                outer.set(int(k, 2), (v, hms[v % len(inner)]))
+                cmap[k] = (vb, [canon_inner[v % len(inner)]])
+            canon = refdict.build(cmap, n)
+        except rc.RefCellError:
+            return None
+        for turn in ('first', 'second'):
+            ok, c = call(outer.serialize)
+            if not ok:
+                return Fail(f'serialize-raises/map-of-maps/{type(c).__name__}', f'{exc_sig(c)}: {c!r} n={n} n2={n2}')
+            if c is None or c.hash != canon.repr_hash():
+                return Fail('hash-differs-from-canonical-tree/map-of-maps', f'n={n} n2={n2} ({turn} serialisation of the same objects)')
+    return None
+
+
+@st.composite
+def st_nested(draw):
+    n = draw(st.one_of(st.sampled_from([1, 2, 3, 8, 32, 64, 256]), st.integers(1, 600)))
+    n2 = draw(st.one_of(st.sampled_from([1, 2, 8, 32, 64, 256]), st.integers(1, 300)))
+
+    def keys(w, cnt):
+        base = draw(st.integers(0, (1 << w) - 1))
+        ks = st.one_of(st.integers(0, (1 << w) - 1),
+                       st.integers(0, min(w, 8)).flatmap(lambda sh: st.integers(0, (1 << sh) - 1).map(lambda lo: ((base >> sh) << sh) | lo)),
+                       st.sampled_from([0, (1 << w) - 1, 1 << (w - 1), 1]))
+        return [[draw(ks), draw(st.integers(0, 65535))] for _ in range(cnt)]
+    case = {'n': n, 'n2': n2, 'pairs': keys(n, draw(st.integers(1, 10 if n > 3 else min(8, 1 << n)))),
+            'inner': [keys(n2, draw(st.integers(1, 6 if n2 > 2 else min(4, 1 << n2)))) for _ in range(draw(st.integers(1, 3)))],
+            'outer': draw(st.sampled_from(['aug', 'aug', 'plain'])), 'innerk': draw(st.sampled_from(['aug', 'aug', 'plain'])),
+            'where': draw(st.sampled_from(['x', 'y', 'xy'])), 'ep': draw(st.integers(0, 2))}
+    if draw(st.booleans()):
+        case['kinds'] = draw(st.lists(st.integers(0, 3), min_size=1, max_size=4))
+    if draw(st.integers(0, 3)) == 0:
+        case['abort'] = draw(st.integers(1, 6))
+    return case
+
+
+def classify_nested(case):
+    yield f'{case["outer"]}-holding-{case["innerk"]}'
+    yield 'inner-in=' + (case['where'] if case['outer'] == 'aug' else 'x')
+    yield 'inner-entry-point=%d' % case['ep']
+    if case.get('abort'):
+        yield 'after-an-aborted-walk'
+    if case.get('kinds'):
+        yield 'free-label-kinds'
+    yield 'outer-entries=' + ('1' if len({k % (1 << case['n']) for k, _ in case['pairs']}) == 1 else '2+')
+
+
 WIDTHS = [1, 2, 3, 4, 5, 8, 16, 32, 64, 256, 267, 267, 900]
 
 
@@ -466,4 +667,8 @@ SUBCHECKS = [
         n=(1000, 20000), shards=(8, 32)),
     Sub('e-pruned-augmented', check_aug, strategy=lambda tier: st_tree(prune=True, refs=True), classify=classify, nontrivial=nt,
         n=(1000, 20000), shards=(8, 32)),
+    Sub('f-callbacks-parse-dictionaries', check_nested, strategy=lambda tier: st_nested(), classify=classify_nested, nontrivial=lambda c: True,
+        n=(400, 15000), shards=(8, 32),
+        note='x / y / key / value callbacks that parse another (augmented or plain) dictionary through each entry point; optional earlier '
+             'walk aborted by a raising callback; value writer that serialises another map'),
 ]
